@@ -91,6 +91,15 @@ def oracle_big(case):
 
 def fixed_cases():
     yield from big_cases('quick')
+    # containers of one-column elements, alone on their line: the one-line form at exactly L columns
+    I = lambda n: ['int', n]
+    for n in (1, 2, 3, 4, 8):
+        items = [I(i % 10) for i in range(n)]
+        for v in (['list', items], ['tuple', items], ['set', items[:3]], ['dict', [[I(i), I(i)] for i in range(min(n, 4))]],
+                  ['list', [['list', items]]], ['dict', [[['str', 'a'], I(1)], [['str', 'b'], I(2)], [['str', 'c'], ['list', [I(0)] * 22]]]],
+                  ['call', 'box', items[:3], []], ['list', [I(1), ['list', items]]]):
+            for indent in (4, 1):
+                yield {'kind': 'value', 'v': v, 'indent': indent}
     yield {'kind': 'value', 'v': ['list', [['int', 1], ['str', 'ab'], ['dict', [[['int', 1], ['tuple', [['int', 2]]]]]]]], 'indent': 4}
     yield {'kind': 'value', 'v': ['dict', [[['str', 'k'], ['list', [['float', 'nan'], ['fset', [['int', 1]]]]]]]], 'indent': 2}
 
